@@ -51,6 +51,9 @@ FMTS = ["png", "jpeg", "gif", "other", "unset"]
 NAMES = ["png", "jpg", "jpeg", "JPG", "gif", "noext", "dot", "multi", "cjk", "space", "meta", "mislead", "empty", "path", "ctrl"]
 TKS = ["var", "cond", "loop", "block", "image", "literal", "all"]
 MKS = ["para", "heading", "list", "task", "table", "code", "quote", "inline", "image", "math", "footnote", "html", "all"]
+SPELLS = ["asis", "abs", "dot", "updir", "qual", "order", "dirs", "extra"]
+SPELLS_R = ["abs", "extra", "qual", "updir", "dirs", "dot", "order", "asis"]      # rotation order of the narrowed plans
+STYLE_EDS = ["name", "run", "para", "strip", "rebase", "readd"]
 PAGES = ["SetPageSettings", "SetPageSize", "SetCustomPageSize", "SetPageOrientation", "SetPageMargins",
          "SetHeaderFooterDistance", "SetGutterWidth", "SetDocGrid", "ClearDocGrid", "GetPageSettings"]
 
@@ -64,11 +67,12 @@ HF = ["AddHeader", "AddFooter", "AddHeaderWithPageNumber", "AddFooterWithPageNum
 PLAIN = ["AddPageBreak", "RestartNumbering", "RemoveFootnote", "SetFootnoteConfig", "UpdateTOC", "TableMerge", "RemoveParagraphAt",
          "SetDifferentFirstPage", "UpdateStatistics", "GetDocumentProperties", "RemoveStyle", "AddTemplateBits"]
 ALLOPS = (BODY_TEXT + LISTS + NOTES + PROPS + ["AddImageText", "SetFootnoteFormat"] + HF + ["AddImage", "AddCellImage"] + PLAIN +
-          ["Save", "ToBytes", "AddStyle", "PageSet", "Reopen", "Render", "RenderText", "ConvertMd"])
+          ["Save", "ToBytes", "AddStyle", "EditStyle", "PageSet", "Reopen", "Render", "RenderText", "ConvertMd"])
 
 WIDE = dict(TextC=set(TEXTS), KindC={"default", "first", "even"}, FmtC=set(FMTS), NameC=set(NAMES),
             ImgViaC={"data", "file", "noelem"}, CellViaC={"data", "file", "cfg"}, StyleViaC={"custom", "quick", "add"},
-            PageC=set(PAGES), ReopenC={"mem", "file"}, RenderViaC={"doc", "legacy"}, RenderImgC={"none", "png", "jpeg", "gif"}, PrepC={True},
+            PageC=set(PAGES), ReopenC={"mem", "file"}, SpellC=set(SPELLS), StyleEdC=set(STYLE_EDS),
+            RenderViaC={"doc", "legacy", "file"}, RenderImgC={"none", "png", "jpeg", "gif"}, PrepC={True},
             TkC=set(TKS), MkC=set(MKS), MdViaC={"string", "file"})
 
 
@@ -81,7 +85,7 @@ def small(seed, **over):
     a = dict(TextC=rot(HOSTILE, seed), KindC=rot(["default", "first", "even"], seed), FmtC=rot(FMTS, seed),
              NameC=rot(NAMES, seed), ImgViaC=rot(["data", "file", "noelem"], seed), CellViaC=rot(["data", "file", "cfg"], seed),
              StyleViaC=rot(["custom", "quick", "add"], seed), PageC=rot(PAGES, seed), ReopenC=rot(["mem", "file"], seed),
-             RenderViaC=rot(["doc", "legacy"], seed), RenderImgC=rot(["png", "none", "jpeg", "gif"], seed), PrepC={False},
+             SpellC=rot(SPELLS_R, seed), StyleEdC=rot(STYLE_EDS, seed), RenderViaC=rot(["doc", "legacy", "file"], seed), RenderImgC=rot(["png", "none", "jpeg", "gif"], seed), PrepC={False},
              TkC=rot(TKS, seed), MkC=rot(MKS, seed), MdViaC=rot(["file", "string"], seed))
     a.update(over)
     return a
@@ -99,6 +103,10 @@ CORE = ["AddParagraph", "AddHeading", "AddMathFormula", "AddListItem", "AddFootn
         "AddTemplateBits", "Render", "RenderText", "ConvertMd", "Reopen", "Save", "ToBytes", "RemoveParagraphAt", "UpdateTOC"]
 CORE_Q = [o for o in CORE if o not in ("RemoveStyle", "UpdateTOC", "RemoveParagraphAt", "PageSet", "GenerateTOC", "UpdateStatistics")]
 SMALL = ["AddHeader", "AddImage", "AddFootnote", "SetTitle", "AddTemplateBits", "Render", "Reopen"]
+STYLE_OPS = ["Reopen", "EditStyle", "AddStyle", "RemoveStyle", "SetParaStyle", "AddHeading", "Render"]
+SPELL_PRE = ["AddParagraph", "AddHeader", "AddFooterWithPageNumber", "AddImage", "AddCellImage", "AddFootnote", "AddEndnote", "AddListItem",
+             "SetTitle", "AddStyle", "AddTable", "SetFootnoteConfig", "AddTemplateBits", "ConvertMd", "RenderText", "Render"]
+SPELL_MID = ["AddHeader", "AddImage", "AddFootnote", "SetTitle", "AddStyle", "EditStyle", "AddListItem", "Render", "ToBytes"]
 SMALL_T = SMALL + ["AddParagraph", "ToBytes", "AddListItem", "AddEndnote", "RenderText", "Save", "AddCellImage"]
 
 
@@ -112,6 +120,11 @@ def plans(seed, q):
         ("pairs", CORE_Q if q else CORE, small(seed), 2, (), (), not q),
         # every triple over the small alphabet
         ("triples", SMALL if q else SMALL_T, small(seed + 1), 3, (), (), True),
+        # a document read back from a package (its parts are preserved and edits are spliced into them), then every pair of
+        # style-manager calls (every kind of in-place edit), written once at the end (lazy pass) and after every call (eager)
+        ("styles", STYLE_OPS, small(seed, StyleEdC=set(STYLE_EDS), PrepC={True}), 3, ("Reopen",), (), True),
+        # every content call, then a reopen through every spelling another producer may give the package
+        ("spell", SPELL_PRE + ["Reopen"], small(seed + 2, SpellC=set(SPELLS)), 2, SPELL_PRE, ("Reopen",), False),
     ]
     if not q:
         P += [
@@ -122,6 +135,11 @@ def plans(seed, q):
             ("pairs3", [o for o in ALLOPS if o not in CORE] + ["Reopen", "Render", "ToBytes"], small(seed + 3), 2, (), (), True),
             ("imgpairs", ["AddImage", "AddCellImage", "Reopen", "Render", "AddTemplateBits"],
              small(seed, FmtC=set(FMTS), NameC=rot(NAMES, seed, 3), ImgViaC={"data", "file"}), 2, (), (), False),
+            # content, reopen through every spelling, content again (both passes)
+            ("spell3", SPELL_MID + ["Reopen"], small(seed + 1, SpellC=set(SPELLS)), 3, SPELL_MID, SPELL_MID + ["Reopen"], True),
+            ("spell3b", SPELL_MID + ["Reopen"], small(seed + 3, SpellC=set(SPELLS)), 3, ("Reopen",), (), True),
+            # four calls on an opened document over the style alphabet and both save entry points
+            ("styles4", STYLE_OPS + ["ToBytes"], small(seed + 1, StyleEdC=rot(STYLE_EDS, seed, 3), PrepC={True}), 4, ("Reopen",), (), True),
             ("quads", ["AddHeader", "AddImage", "AddFootnote", "Render", "Reopen", "AddTemplateBits", "ConvertMd"], small(seed + 4), 4, (), (), False),
         ]
     return P
@@ -137,10 +155,22 @@ def execute(ctx, cases, tag):
             dev.append(w["sig"])
         if w["sig"][0] == "N01" and w["sig"] not in notes:
             notes.append(w["sig"])
+        if w["sig"][0] == "X01":
+            FAULTS.append("%s (case %s, %s)" % (w["sig"], w["case"], w["tag"]))
     return res
 
 
 CHUNK = 4000
+FAULTS = []
+
+
+def verdict(ctx):
+    """The package a Reopen handed to the library must satisfy the property itself (X01 otherwise): on a tree that shows no
+    violation such a step means the respelling machinery is broken, and the run must not pass for it."""
+    rc = ctx.finish(LEVEL, RULE)
+    if rc == 0 and FAULTS:
+        raise vlib.Machinery("Reopen was fed a package that violates C01 itself: " + "; ".join(FAULTS[:5]))
+    return rc
 
 
 def pipeline(ctx, replay_case=None):
@@ -154,7 +184,7 @@ def pipeline(ctx, replay_case=None):
     ctx.extra_cov["non_vacuity"] = "Pkg_MC_byname_cex.cfg (Design = byname, the pinned tree's media naming): TLC reports Inv_C01 violated"
     if replay_case is not None:
         execute(ctx, [replay_case], "replay")
-        return ctx.finish(LEVEL, RULE)
+        return verdict(ctx)
     cnt = collections.Counter()
     cls = collections.Counter()
     allc, bounds = [], {}
@@ -176,7 +206,8 @@ def pipeline(ctx, replay_case=None):
     for k in range(1 if q else 4):
         r = ctx.seed + k
         pools = small(r, TextC=rot(TEXTS, r, 2) | rot(HOSTILE, r), FmtC=rot(FMTS, r, 2), NameC=rot(NAMES, r, 2),
-                      KindC={"default", "first", "even"}, RenderImgC={"none", "png"}, ReopenC={"mem", "file"}, PrepC={True, False})
+                      KindC={"default", "first", "even"}, RenderImgC={"none", "png"}, ReopenC={"mem", "file"}, PrepC={True, False},
+                      SpellC=rot(SPELLS_R, r, 2), StyleEdC=rot(STYLE_EDS, r, 2))
         cs = ctx.tlc_gen("Pkg_MC.tla", gencfg(ctx, "gen_sim%d.cfg" % k, ALLOPS, pools, d, last=["ToBytes", "Save"]),
                          "sim%d" % k, mode="sim", num=20 if q else 100, depth=d + 1, seed_off=k, limit=40 if q else 300)
         for c in cs:
@@ -198,7 +229,7 @@ def pipeline(ctx, replay_case=None):
     ctx.extra_cov["class_counts"] = dict(cls)
     ctx.extra_cov["exhaustive_over"] = ("operation x argument class (depth 1), pairs of the core alphabet, triples of the small "
                                          "alphabet, for the rotated argument classes listed under bounds")
-    return ctx.finish(LEVEL, RULE)
+    return verdict(ctx)
 
 
 def run(ctx):
